@@ -125,9 +125,13 @@ fn drive_vamm(id: &str, rng: &mut Rng, maxops: u64) -> Runner {
         let dir = if rng.chance(50) { "add" } else { "rem" };
         // amount: up to ~40% of the relevant reserve, with a bias to small / dust amounts
         let reserve = if input { cx } else { cy };
-        let amt = match rng.below(10) {
+        let amt = match rng.below(14) {
             0 => rng.range(0, 3),
             1 | 2 => rng.range(1, 50),
+            // the whole reserve, to the unit (and one unit either side): draining swaps
+            10 => reserve,
+            11 => (reserve - 1).max(1),
+            12 => reserve + 1,
             _ => rng.range(1, (reserve * 2 / 5).max(2)),
         };
         let qn = if input { "input_amount" } else { "output_amount" };
@@ -153,18 +157,20 @@ fn drive_vamm(id: &str, rng: &mut Rng, maxops: u64) -> Runner {
 
 /// Real price feed driven directly.
 fn drive_feed(id: &str, rng: &mut Rng, maxops: u64) -> Runner {
-    let dep = json!({"collateral": "cw20", "dec": 2, "feed": "real", "vamms": [{}]});
+    // two price keys served by the one feed, their submissions interleaved
+    let dep = json!({"collateral": "cw20", "dec": 2, "feed": "real", "vamms": [{}, {}]});
     let mut r = Runner::new(id, &dep);
     let n = rng.range(3, maxops as i64);
     for _ in 0..n {
         let now = num(&r.out.last().unwrap()["post"]["blk"]["t"]);
         let roll = rng.below(100);
+        let key = if rng.chance(60) { "ETH" } else { "BTC" };
         if roll < 35 {
             let dt = *rng.pick(&[1i64, 15, 60, 300, 900, 3600]);
             r.op(&json!({"k": "block", "dh": 1, "dt": dt}));
         } else if roll < 45 {
             // a batch of submissions (non-decreasing timestamps, not in the future)
-            let last_t = r.out.last().unwrap()["post"]["feed"]["rounds"]["ETH"]
+            let last_t = r.out.last().unwrap()["post"]["feed"]["rounds"][key]
                 .as_array().and_then(|a| a.last()).map(|x| num(&x["t"])).unwrap_or(0);
             let n = rng.range(1, 3);
             let mut ps = vec![];
@@ -176,10 +182,10 @@ fn drive_feed(id: &str, rng: &mut Rng, maxops: u64) -> Runner {
                 ts.push(t);
             }
             r.op(&json!({"k": "tx", "c": "feed", "m": "append_multiple_price", "s": "owner",
-                "a": {"key": "ETH", "prices": ps, "ts": ts}}));
+                "a": {"key": key, "prices": ps, "ts": ts}}));
         } else if roll < 70 {
             let price = *rng.pick(&[800i64, 900, 1000, 1000, 1100, 1250, 2000, 1]);
-            let last_t = r.out.last().unwrap()["post"]["feed"]["rounds"]["ETH"]
+            let last_t = r.out.last().unwrap()["post"]["feed"]["rounds"][key]
                 .as_array()
                 .and_then(|a| a.last())
                 .map(|x| num(&x["t"]))
@@ -187,19 +193,19 @@ fn drive_feed(id: &str, rng: &mut Rng, maxops: u64) -> Runner {
             // non-decreasing timestamps, not in the future
             let t = rng.range(last_t.max(now - 2000).min(now), now);
             r.op(&json!({"k": "tx", "c": "feed", "m": "append_price", "s": "owner",
-                "a": {"key": "ETH", "price": price, "t": t}}));
+                "a": {"key": key, "price": price, "t": t}}));
         } else {
             match rng.below(3) {
                 0 => {
-                    r.op(&json!({"k": "query", "c": "feed", "q": "get_price", "a": {"key": "ETH"}}));
+                    r.op(&json!({"k": "query", "c": "feed", "q": "get_price", "a": {"key": key}}));
                 }
                 1 => {
                     let nb = rng.range(0, 4);
-                    r.op(&json!({"k": "query", "c": "feed", "q": "get_previous_price", "a": {"key": "ETH", "n": nb}}));
+                    r.op(&json!({"k": "query", "c": "feed", "q": "get_previous_price", "a": {"key": key, "n": nb}}));
                 }
                 _ => {
                     let iv = *rng.pick(&[1i64, 15, 60, 300, 900, 3600, 50000]);
-                    r.op(&json!({"k": "query", "c": "feed", "q": "get_twap_price", "a": {"key": "ETH", "interval": iv}}));
+                    r.op(&json!({"k": "query", "c": "feed", "q": "get_twap_price", "a": {"key": key, "interval": iv}}));
                 }
             }
         }
